@@ -465,7 +465,7 @@ func (m *machine) lookup(instr *ssa.Lookup, x, idx value) value {
 			return b[i.c]
 		}
 		a := &arrobj{elems: b}
-		return m.loadSym(ptr{arr: a, sidx: i.t, lo: 0, hi: n}, instr.Type())
+		return m.loadSym(ptr{arr: a, sidx: m.idx64(i, instr.Index.Type()), lo: 0, hi: n}, instr.Type())
 	}
 	panic(engineError{fmt.Sprintf("Lookup on %T", x)})
 }
